@@ -29,6 +29,15 @@ CONFIG = {
   "level_text": "Machine-checked theorems (Lean 4), generic in the scalar function and hence valid for every operator and element kind: whenever the lifted operator returns a value it has the broadcast shape and every element is the scalar operator applied to the elements that meet there (scalar/matrix, equal shapes, matrix with matching column or row vector), for all shapes and storage forms; incompatible shapes are rejected; acceptance is closed under shape for total scalar functions; integer operators are exact when representable and errors otherwise; comparisons and Boolean algebra stated outright; floats are the IEEE parameter. The model (dispatch over RowDVector/DVector/DMatrix and the eight kernel families) is tied to the code by class-exhaustive differential runs through Interpreter::interpret.",
   "level_note": "Trusted: Lean kernel + propext/Classical.choice/Quot.sound; IEEE float hardware; harness rendering (annotated definitions). Fixed-size storage forms (behind the stdlib feature set, which does not compile) are not covered. A fix: commit added the missing shape checks to the MDMD/RDRD/VDVD arms (C01-D1/D2).",
  },
+ "C02": {
+  "engine": "syntax",
+  "rule": "every sequence of 1-3 binary operators (thorough: 1-4) over {|| && xor == != < <= > >= + - * / % ^} with integer operands (3615 formulas), 800 sampled 4-operator sequences, and 1500 well-typed chains mixing arithmetic, comparison and logic with prefix - and !, and parentheses; per formula the real parse tree (as the left fold `term()` performs) and its fully parenthesised rendering are compared with the model, and interpret(e) is compared bit for bit with the evaluation of the documented grouping one operator at a time; distinct = distinct token sequences",
+  "trusted": ["tools/extract_prec.py (regex extraction of the level order l1..l7 and of the fold direction of term())",
+              "the parenthesised form is evaluated as a sequence of single-operator definitions because deeply nested parentheses are exponentially slow to parse at this commit (C09-D2)"],
+  "assumptions": ["table and set operators (levels 6, 7) are in the proved level structure but are not exercised here (C18/C14 evaluate them)"],
+  "level_text": "Machine-checked theorems (Lean 4) over the level-by-level recursive-descent parser and the left fold, for any number of grammar levels, formula lengths and operand/operator semantics: the parse tree's in-order traversal is the text and nothing is left over; it is well grouped (every operator to the right of a node binds strictly tighter, every operator to the left at least as tight); well-grouped trees are unique for a given in-order sequence, so the parser computes the documented grouping and an unparenthesised formula evaluates to the value of that grouping; operators of one level (including ^) associate to the left. The level order of the real grammar and the fold direction of term() are re-extracted from the source on every run and proved equal to the specification by `decide`. Tied to the code by comparing real parse trees and evaluations on all short operator sequences.",
+  "level_note": "Trusted: Lean kernel + propext/Classical.choice/Quot.sound; the extractor; atoms (literals, parenthesised formulas, prefixed factors) are opaque in the theorems and handled by recursion in the driver.",
+ },
  "C03": {
   "engine": "core",
   "claimed": True,
@@ -108,6 +117,10 @@ CONFIG = {
  },
 }
 
-pre_lean = {}
+def _c02_pre(root):
+    import extract_prec
+    return extract_prec.generate(root)
+
+pre_lean = {"C02": _c02_pre}
 
 NOT_CLAIMED = {}
